@@ -36,7 +36,7 @@ def smtlib(asserts, want_model=False, logic=None, decimal=True, extra=()):
         lines.append('(set-option :produce-models true)')
         if decimal:
             lines.append('(set-option :pp.decimal true)')
-            lines.append('(set-option :pp.decimal_precision 30)')
+            lines.append('(set-option :pp.decimal_precision 400)')
     if logic:
         lines.append('(set-logic %s)' % logic)
     lines += decls + defs + list(extra)
